@@ -730,18 +730,25 @@ func ruleFillerUse(w *World, r *Report, pfx string) {
 		return
 	}
 	var cur, ref *ssa.Call
-	for _, b := range fn.Blocks {
-		for _, in := range b.Instrs {
-			c, ok := in.(*ssa.Call)
-			if !ok || c.Call.StaticCallee() != pr || len(c.Call.Args) != 3 {
-				continue
+	unit := w.unit(fn)
+	for _, g := range sortedFns(unit) {
+		var c1, c2 *ssa.Call
+		for _, b := range g.Blocks {
+			for _, in := range b.Instrs {
+				c, ok := in.(*ssa.Call)
+				if !ok || c.Call.StaticCallee() != pr || len(c.Call.Args) != 3 {
+					continue
+				}
+				if isLoad(Val{V: c.Call.Args[0]}, tStat, "Total") && isLoad(Val{V: c.Call.Args[1]}, tStat, "Current") {
+					c1 = c
+				}
+				if isLoad(Val{V: c.Call.Args[0]}, tStat, "Total") && isLoad(Val{V: c.Call.Args[1]}, tStat, "Refill") {
+					c2 = c
+				}
 			}
-			if isLoad(Val{V: c.Call.Args[0]}, tStat, "Total") && isLoad(Val{V: c.Call.Args[1]}, tStat, "Current") {
-				cur = c
-			}
-			if isLoad(Val{V: c.Call.Args[0]}, tStat, "Total") && isLoad(Val{V: c.Call.Args[1]}, tStat, "Refill") {
-				ref = c
-			}
+		}
+		if c1 != nil && c2 != nil {
+			cur, ref = c1, c2
 		}
 	}
 	ok := cur != nil && ref != nil && cur.Call.Args[2] != nil && stripConv(cur.Call.Args[2]) == stripConv(ref.Call.Args[2])
@@ -790,6 +797,11 @@ func ruleFillerUse(w *World, r *Report, pfx string) {
 				for _, refr := range *v.Referrers() {
 					switch x := refr.(type) {
 					case *ssa.Phi, *ssa.DebugRef:
+					case *ssa.Call:
+						// handed to a private helper of Fill as the limit of a fill loop
+						if h := x.Call.StaticCallee(); h == nil || !unit[h] {
+							bad = "unexpected use of the filled/refill widths at " + w.instrPos(refr)
+						}
 					case *ssa.BinOp:
 						if x != sum && x.Op != token.SUB {
 							bad = "the filled/refill widths are adjusted again after being related (" + w.instrPos(x) + ")"
@@ -965,6 +977,60 @@ func ruleCellsBounded(w *World, r *Report, pfx string) {
 					}
 					if sameAmount(w, y, amt) && (op == token.GEQ || op == token.GTR) && loopInvariantValue(x) {
 						guarded = true
+					}
+				}
+			}
+		}
+		// the amount is what a private helper returns (`tip, used = s.nextTip(width)`): every returned
+		// amount is the constant 0, or is guarded inside the helper by `amount <= limit`
+		if !guarded && isZero(cnt) {
+			if ex, ok := amt.(*ssa.Extract); ok {
+				if call, ok := ex.Tuple.(*ssa.Call); ok {
+					if h := call.Call.StaticCallee(); h != nil && unit[h] {
+						all, nRet := true, 0
+						for _, hb := range h.Blocks {
+							ret, ok := hb.Instrs[len(hb.Instrs)-1].(*ssa.Return)
+							if !ok || ex.Index >= len(ret.Results) {
+								continue
+							}
+							nRet++
+							rv := ret.Results[ex.Index]
+							if isZero(rv) {
+								continue
+							}
+							okRet := false
+							for _, b := range h.Blocks {
+								ifi, ok := b.Instrs[len(b.Instrs)-1].(*ssa.If)
+								if !ok {
+									continue
+								}
+								bin, ok := ifi.Cond.(*ssa.BinOp)
+								if !ok {
+									continue
+								}
+								for pol := 0; pol < 2; pol++ {
+									op, succ := bin.Op, b.Succs[0]
+									if pol == 1 {
+										op, succ = negOp(op), b.Succs[1]
+									}
+									if !(succ == hb || (succ.Dominates(hb) && len(succ.Preds) == 1)) {
+										continue
+									}
+									if sameAmount(w, bin.X, rv) && (op == token.LEQ || op == token.LSS) && loopInvariantValue(bin.Y) {
+										okRet = true
+									}
+									if sameAmount(w, bin.Y, rv) && (op == token.GEQ || op == token.GTR) && loopInvariantValue(bin.X) {
+										okRet = true
+									}
+								}
+							}
+							if !okRet {
+								all = false
+							}
+						}
+						if all && nRet > 0 {
+							guarded = true
+						}
 					}
 				}
 			}
